@@ -1,0 +1,16 @@
+//go:build verif
+
+package eventbus
+
+import "reflect"
+
+// VerifHook, when set (before any goroutine uses the bus), is called at the bus's linearization
+// points: after a lock is acquired, before a channel operation becomes visible, before a lock is
+// released. It exists only in builds with the `verif` tag (conformance tracing for /verif).
+var VerifHook func(ev string, typ reflect.Type, ch any, evt any)
+
+func verifHook(ev string, typ reflect.Type, ch any, evt any) {
+	if h := VerifHook; h != nil {
+		h(ev, typ, ch, evt)
+	}
+}
